@@ -32,6 +32,32 @@ def expr_value(e, nm, use_terms):
     return core.render(e, nm)
 
 
+HOLD = None  # when a list: every mutable argument container handed to a builder method is recorded here
+
+
+def _h(x):
+    """record a caller-side argument container (list / dict) that is passed to a builder"""
+    if HOLD is not None and isinstance(x, (list, dict)):
+        HOLD.append(x)
+    return x
+
+
+def scramble(held):
+    """what a caller may do with its own lists / dicts after the pipeline was built: change them"""
+    n = 0
+    for x in held:
+        if isinstance(x, list):
+            x.reverse()
+            x.append("zz_scrambled__")
+            n += 1
+        elif isinstance(x, dict):
+            for k in list(x.keys())[:1]:
+                del x[k]
+            x["zz_scrambled__"] = "zz_scrambled__"
+            n += 1
+    return n
+
+
 def build(node, nm=None, use_terms=False, memo=None):
     import data_algebra
     from data_algebra.view_representations import TableDescription
@@ -42,7 +68,7 @@ def build(node, nm=None, use_terms=False, memo=None):
         return memo[id(node)]
     op = node["op"]
     if op == "table":
-        r = TableDescription(table_name=_tn(nm, node["name"]), column_names=[_n(nm, c) for c in node["cols"]])
+        r = TableDescription(table_name=_tn(nm, node["name"]), column_names=_h([_n(nm, c) for c in node["cols"]]))
         memo[id(node)] = r
         return r
     src = build(node["src"], nm, use_terms, memo)
@@ -57,25 +83,25 @@ def build(node, nm=None, use_terms=False, memo=None):
         rv = node.get("reverse")
         if isinstance(rv, list):
             rv = [_n(nm, c) for c in rv]
-        r = src.extend(ops, partition_by=pb, order_by=ob, reverse=rv)
+        r = src.extend(_h(ops), partition_by=_h(pb), order_by=_h(ob), reverse=_h(rv))
     elif op == "project":
         ops = {_n(nm, c): expr_value(e, nm, use_terms) for c, e in node["ops"]}
         gb = node.get("group_by")
         if isinstance(gb, list):
             gb = [_n(nm, c) for c in gb]
-        r = src.project(ops, group_by=gb)
+        r = src.project(_h(ops), group_by=_h(gb))
     elif op == "select_rows":
         r = src.select_rows(expr_value(node["expr"], nm, use_terms))
     elif op == "select_columns":
-        r = src.select_columns([_n(nm, c) for c in node["cols"]])
+        r = src.select_columns(_h([_n(nm, c) for c in node["cols"]]))
     elif op == "drop_columns":
-        r = src.drop_columns([_n(nm, c) for c in node["cols"]])
+        r = src.drop_columns(_h([_n(nm, c) for c in node["cols"]]))
     elif op == "rename_columns":
-        r = src.rename_columns({_n(nm, new): _n(nm, old) for new, old in node["map"]})
+        r = src.rename_columns(_h({_n(nm, new): _n(nm, old) for new, old in node["map"]}))
     elif op == "map_columns":
-        r = src.map_columns({_n(nm, old): (None if new is None else _n(nm, new)) for old, new in node["map"]})
+        r = src.map_columns(_h({_n(nm, old): (None if new is None else _n(nm, new)) for old, new in node["map"]}))
     elif op == "order_rows":
-        r = src.order_rows([_n(nm, c) for c in node["cols"]], reverse=[_n(nm, c) for c in node.get("reverse") or []],
+        r = src.order_rows(_h([_n(nm, c) for c in node["cols"]]), reverse=_h([_n(nm, c) for c in node.get("reverse") or []]),
                            limit=node.get("limit"))
     elif op == "natural_join":
         right = build(node["right"], nm, use_terms, memo)
@@ -87,7 +113,7 @@ def build(node, nm=None, use_terms=False, memo=None):
         kw = {}
         if node.get("check"):
             kw["check_all_common_keys_in_equi_spec"] = True
-        r = src.natural_join(right, on=on, jointype=node["jointype"], **kw)
+        r = src.natural_join(right, on=_h(on), jointype=node["jointype"], **kw)
     elif op == "concat_rows":
         right = build(node["right"], nm, use_terms, memo)
         idc = node.get("id_column")
